@@ -1,21 +1,28 @@
 #!/usr/bin/env python3
-"""Translator for the leaf synchronisation code of src/Future.cpp (property C10).
+"""Translator for the synchronisation and handshake code of src/Future.cpp and include/nstd/Future.hpp (property C10).
 
-Extracts from the CURRENT source the bodies of
+Extracts from the CURRENT sources the bodies of
     LockFreeQueue<T>::push(const T&)   LockFreeQueue<T>::pop(T&)   LockFreeQueue<T>::size()
     FastSignal::set()   FastSignal::reset()   FastSignal::wait()
     LockFreeQueue<T>::LockFreeQueue(usize)   ThreadPool::ThreadPool(usize, usize, usize)
+    Future<void>::Future()  ~Future()  join()  abort()  isAborting()  isFinished()  isAborted()  set()   enum Future<void>::State
+    Future<A>::operator const A&()  ~Future()   (the other members of Future<A> must be plain forwards to the embedded Future<void>)
+    Future<void>::proc<A> / Future<A>::proc<B>: the order of body call / result store / set() / delete
 and the decision arithmetic of ThreadPool::run (from `Atomic::increment(_pushedJobs)` on: the conditions of its if-chain)
 (tokenizer + recursive-descent parser of the C++ subset these bodies are written in) and writes them as Lean definitions over
 the state types of lean/Nstd/Future/{Ring,Model}.lean into lean/Nstd/Generated/FutureBody.lean.
 lean/Nstd/Future/PropsGen.lean proves that the generated micro-step functions ARE the hand-written model steps
-(`ringStep`, `stepFrame … (.fSet/.fRst/.fRstLoad/.fWait)`, `Ring.init`, `mkPool`, the branch taken by `runRdTc/runClk2/runClk3`).
+(`ringStep`, `stepFrame … (.fSet/.fRst/.fRstLoad/.fWait/.join/.joinClr/.pSetRd/.pSetX/.pSig/.evResult/…)`, `Ring.init`, `mkPool`,
+the branch taken by `runRdTc/runClk2/runClk3`).
+NOT translated (hand translation, tied by the step-by-step replay only): the control skeleton of ThreadPool::run (push loop, spawn and
+retire branches under the mutex, purge of the context list), ThreadContext::proc (worker loop), ~ThreadPool, startProc, Signal.cpp.
 
 Micro-step compilation (push / pop / size / FastSignal::*): the body is lowered to a list of instructions; every access to a
-SHARED location (a `volatile` member: `_tail`, `_head`, `node->tail`, `node->head`, `node->data`, `_state`; plain or through
+SHARED location (`_tail`, `_head`, `node->tail`, `node->head`, `node->data`, `_state`, `_aborting`, `_joinable`, `result`; plain or through
 `Atomic::…`) is one instruction and starts one micro-step (program counter = index of the access in source order); the thread-local
 computation after it (assignments to locals, branches, the loop back edge) runs on inside the same micro-step until the next shared
-access (`goto pc`), a `return` (`ret`), or a call of a modelled function (`_signal.set()/reset()/wait()`: `call f next-pc`).
+access (`goto pc`), a `return` (`ret`), or calls of modelled functions (`_signal.set()/reset()/wait()`, `_sig.…`, `join()`: `call [f, …] next-pc`;
+a body that begins with such a call gets the entry pseudo program counter 0).
 Locals are numbered in the order of their declaration (`v0, v1, …`; temporaries `x0, x1, …` in order of use), so renaming a local,
 re-formatting, comments and the NSTD_VERIF_YIELD markers do not change the output.
 
@@ -236,7 +243,11 @@ class P:
     def ternary(self):
         c = self.binary(0)
         if self.peek() == "?":
-            raise Refuse(f"{self.fn}: conditional expression is outside the translated subset")
+            self.eat("?")
+            a = self.assign()
+            self.eat(":")
+            b = self.assign()
+            return ("cond", c, a, b)
         return c
 
     LEVELS = [("||",), ("&&",), ("|",), ("^",), ("&",), ("==", "!="), ("<", ">", "<=", ">="), ("<<", ">>"), ("+", "-"), ("*", "/", "%")]
@@ -440,8 +451,12 @@ class Lower:
             if e[1] in ("usize", "uint32") and ta == "nat":
                 return a, "nat"
             self.refuse(f"cast to {e[1]} of {ta}")
-        if k == "bin_logic":
-            pass
+        if k == "cond":
+            c = self.truth(*self.pure(e[1]))
+            (a, ta), (b, tb) = self.pure(e[2]), self.pure(e[3])
+            if ta != tb:
+                self.refuse(f"conditional expression with branches of type {ta} and {tb}")
+            return f"(if {c} then {a} else {b})", ta
         if k == "not":
             a, ta = self.pure(e[1])
             if ta == "prop":
@@ -495,10 +510,11 @@ class Lower:
             if loc is None:
                 self.refuse(f"{e[1][1]} on something that is not a known shared location")
             args = []
+            if sum(1 for a in e[2][1:] if self.count_shared(a)) > 1:
+                self.refuse("shared accesses in several arguments of an atomic operation (their order is not fixed)")
             for a in e[2][1:]:
-                if self.count_shared(a):
-                    self.refuse("shared access inside the argument of an atomic operation")
-                args.append(self.pure(a))
+                # an argument is evaluated before the operation itself
+                args.append(self.pure(self.rv(a)) if self.count_shared(a) else self.pure(a))
             ty = self.loc_type(loc)
             t = want or self.tmp(ty)
             self.emit(kind, t, loc, *args)
@@ -524,6 +540,10 @@ class Lower:
             return ("not", self.rv(e[1]))
         if k == "cast":
             return ("cast", e[1], self.rv(e[2]))
+        if k == "cond":
+            if self.count_shared(e[2]) or self.count_shared(e[3]):
+                self.refuse("shared access inside a branch of a conditional expression")
+            return ("cond", self.rv(e[1]), e[2], e[3])
         if self.count_shared(e) == 0:
             return e
         self.refuse(f"shared access inside expression form `{k}`")
@@ -612,6 +632,9 @@ class Lower:
             if e[0] == "call" and e[1][0] == "dot" and e[1][1][0] == "id" and (e[1][1][1] + "." + e[1][2]) in self.env.calls and not e[2]:
                 self.emit("call", self.env.calls[e[1][1][1] + "." + e[1][2]])
                 return
+            if e[0] == "call" and e[1][0] == "id" and e[1][1] in self.env.calls and not e[2]:
+                self.emit("call", self.env.calls[e[1][1]])
+                return
             self.refuse(f"expression statement of form `{e[0]}` is outside the translated subset")
         elif k == "pnew":
             loc = self.loc_of(s[1])
@@ -679,10 +702,12 @@ class MicroSteps:
         self.ins = low.ins + [("ret", None)]
         self.lab = {x[1]: i for i, x in enumerate(self.ins) if x[0] == "label"}
         self.pcs = [i for i, x in enumerate(self.ins) if x[0] in SHARED_KINDS]
-        self.pc_of = {i: n for n, i in enumerate(self.pcs)}
         first = self.skip(0, set())
-        if first not in self.pc_of or self.pc_of[first] != 0:
-            low.refuse("the body does not begin with a shared access")
+        # a body that begins with a modelled call (not with a shared access) gets the entry pseudo program counter 0
+        self.entry = not (self.pcs and first == self.pcs[0])
+        if self.entry and self.ins[first][0] != "call":
+            low.refuse("the body begins neither with a shared access nor with a modelled call")
+        self.pc_of = {i: n + (1 if self.entry else 0) for n, i in enumerate(self.pcs)}
 
     def skip(self, i, seen):
         while self.ins[i][0] in ("label", "jmp"):
@@ -759,35 +784,44 @@ class MicroSteps:
                 txt, ty = v
                 if self.ret_type == "Bool":
                     val = txt if ty == "bool" else f"(decide {self.low.truth(txt, ty)})"
-                elif self.ret_type == "Nat" and ty == "nat":
+                elif (self.ret_type == "Nat" and ty == "nat") or (self.ret_type == "Option Int" and ty == "optint"):
                     val = txt
                 else:
                     self.low.refuse(f"return value of type {ty} in a function returning {self.ret_type}")
             return [f"{ind}({sv}, .ret {val} L)"]
         if k == "call":
+            fs = [x[1]]
             j = self.skip(i + 1, set(seen))
+            while self.ins[j][0] == "call":
+                fs.append(self.ins[j][1])
+                j = self.skip(j + 1, set(seen))
             y = self.ins[j]
+            cl = "[" + ", ".join("." + f for f in fs) + "]"
             if y[0] in SHARED_KINDS:
-                return [f"{ind}({sv}, .call .{x[1]} (some {self.pc_of[j]}) L)"]
+                return [f"{ind}({sv}, .call {cl} (some {self.pc_of[j]}) L)"]
             if y[0] == "ret" and (y[1] is None or y[1] == "callee"):
-                return [f"{ind}({sv}, .call .{x[1]} none L)"]
-            self.low.refuse("a modelled call must be followed by a shared access or the end of the function")
+                return [f"{ind}({sv}, .call {cl} none L)"]
+            self.low.refuse("modelled calls must be followed by a shared access or the end of the function")
         self.low.refuse(f"internal: instruction {k}")
 
     def render(self, name, params, state_ty, ltype):
         sv = self.env.sv
-        lines = [f"def {name} {params} ({sv} : {state_ty}) (pc : Nat) (L : {ltype}) : {state_ty} × GStep {ltype} {self.ret_type} :="]
+        rt = self.ret_type if " " not in self.ret_type else "(" + self.ret_type + ")"
+        lines = [f"def {name} {params} ({sv} : {state_ty}) (pc : Nat) (L : {ltype}) : {state_ty} × GStep {ltype} {rt} :="]
+        if self.entry:
+            lines.append("  if pc = 0 then")
+            lines += self.walk(0, "    ", set())
         for n, i in enumerate(self.pcs):
-            kw = "if" if n == 0 else "else if"
-            lines.append(f"  {kw} pc = {n} then")
+            kw = "if" if n == 0 and not self.entry else "else if"
+            lines.append(f"  {kw} pc = {self.pc_of[i]} then")
             lines += self.access(self.ins[i], "    ")
             lines += self.walk(i + 1, "    ", set())
         lines.append(f"  else ({sv}, .stuck)")
         return "\n".join(lines)
 
 
-LEAN_TY = {"nat": "Nat", "int": "Int", "slot": "Nat", "optnat": "Option Nat", "optdata": "Option α", "bool": "Bool"}
-LEAN_DEF = {"nat": "0", "int": "0", "slot": "0", "optnat": "none", "optdata": "none", "bool": "false"}
+LEAN_TY = {"nat": "Nat", "int": "Int", "slot": "Nat", "optnat": "Option Nat", "optdata": "Option α", "bool": "Bool", "optint": "Option Int"}
+LEAN_DEF = {"nat": "0", "int": "0", "slot": "0", "optnat": "none", "optdata": "none", "bool": "false", "optint": "none"}
 
 
 def locals_struct(name, order, poly):
@@ -823,7 +857,7 @@ def compile_fn(src, what, rx, env, params, ret_type, lean_name, lean_params, sta
     low.stmts(parse_body(body, what))
     ms = MicroSteps(low, ret_type)
     lt = f"({ltype} α)" if poly else ltype
-    return (locals_struct(ltype, low.order, poly) + "\n\n" + ms.render(lean_name, lean_params, state_ty, lt), len(ms.pcs))
+    return (locals_struct(ltype, low.order, poly) + "\n\n" + ms.render(lean_name, lean_params, state_ty, lt), len(ms.pcs) + (1 if ms.entry else 0))
 
 
 # ---- constructors and the decision arithmetic of run() ------------------------------------------------------------------
@@ -1037,6 +1071,112 @@ def gen_run_decision(src):
         "instance (a b : Nat) : Decidable (runCondRetireClock a b) := by unfold runCondRetireClock; exact inferInstance"])
 
 
+# ---- include/nstd/Future.hpp + Future<void>::set ----------------------------------------------------------------------------
+def class_body(hdr, what, rx):
+    ms = list(re.finditer(rx + r"\s*\{", hdr))
+    if len(ms) != 1:
+        raise Refuse(f"{what}: {len(ms)} class definitions found, expected exactly one")
+    end = balanced(hdr, ms[0].end() - 1)
+    return hdr[ms[0].end():end - 1]
+
+
+def fut_env(enum):
+    return dict(
+        state_var="x",
+        shared={"_joinable": ("bool", "{r}.joinable", "{{ {r} with joinable := {v} }}"),
+                "_aborting": ("bool", "{r}.aborting", "{{ {r} with aborting := {v} }}"),
+                "_state": ("nat", "{r}.state", "{{ {r} with state := {v} }}"),
+                "result": ("optint", "{r}.result", "{{ {r} with result := {v} }}")},
+        const={k: (str(v), "nat") for k, v in enum.items()},
+        calls={"_sig.wait": "sigWait", "_sig.reset": "sigReset", "_sig.set": "sigSet", "join": "futJoin", "future.join": "futJoin"},
+    )
+
+
+def gen_future_hpp(repo, src_cpp):
+    hdr = strip_comments((Path(repo) / "include" / "nstd" / "Future.hpp").read_text())
+    fv = class_body(hdr, "class Future<void>", r"template\s*<\s*>\s*class\s+Future\s*<\s*void\s*>")
+    fa = class_body(hdr, "class Future<A>", r"template\s*<\s*typename\s+A\s*>\s*class\s+Future\b(?!\s*;)")
+    m = re.search(r"enum\s+State\s*\{([^}]*)\}", fv)
+    if not m:
+        raise Refuse("Future<void>: enum State not found")
+    names = [x.strip() for x in m.group(1).split(",") if x.strip()]
+    if any(not IDENT.match(n) for n in names):
+        raise Refuse("Future<void>::State: enumerators with explicit values are outside the translated subset")
+    enum = {n: k for k, n in enumerate(names)}
+    for need in ("idleState", "finishedState", "abortedState"):
+        if need not in enum:
+            raise Refuse(f"Future<void>::State: enumerator {need} is missing")
+    env = fut_env(enum)
+    parts, counts = [], {}
+    parts.append("/-- the enumerators of `Future<void>::State`, in declaration order -/\n" +
+                 "\n".join(f"def state_{n} : Nat := {k}" for n, k in enum.items()))
+    # constructor: member initialisers
+    m = re.search(r"[^~\w]Future\(\)\s*:\s*([^{]*)\{\s*\}", fv)
+    if not m:
+        raise Refuse("Future<void>::Future(): `Future() : <initialisers> {}` not found")
+    init = dict((a, b.strip()) for a, b in re.findall(r"(_\w+)\(([^()]*)\)", m.group(1)))
+    if set(init) != {"_aborting", "_state", "_joinable"}:
+        raise Refuse(f"Future<void>::Future(): initialisers {sorted(init)}")
+    low = Lower("Future<void>::Future()", Env("x", {}, {k: (str(v), "nat") for k, v in enum.items()}, {}, {}))
+    vals = {}
+    for k, v in init.items():
+        txt, ty = low.pure(parse_body(v + ";", "Future()")[0][1])
+        if (ty == "bool") != (k != "_state"):
+            low.refuse(f"initialiser of {k} has type {ty}")
+        vals[k] = txt
+    parts.append("/-- the object `Future<void>()` constructs (`result` of Future<A> is default-constructed: never stored) -/\n"
+                 f"def futCtor : Fut := {{ aborting := {vals['_aborting']}, state := {vals['_state']}, joinable := {vals['_joinable']} }}")
+    fns = [("join", r"void\s+join\(\s*\)", "Unit", fv), ("abort", r"void\s+abort\(\s*\)", "Unit", fv),
+           ("isAborting", r"bool\s+isAborting\(\s*\)\s*const", "Bool", fv), ("isFinished", r"bool\s+isFinished\(\s*\)\s*const", "Bool", fv),
+           ("isAborted", r"bool\s+isAborted\(\s*\)\s*const", "Bool", fv), ("dtor", r"~Future\(\s*\)", "Unit", fv)]
+    for name, rx, ret, cls in fns:
+        txt, n = compile_fn(cls, f"Future<void>::{name}", rx, env, {}, ret, f"fut{name[0].upper() + name[1:]}Step", "", "Fut",
+                            f"Fut{name[0].upper() + name[1:]}L", False)
+        parts.append(f"/-! ### Future<void>::{name} -/\n" + txt)
+        counts["Future<void>::" + name] = n
+    txt, n = compile_fn(src_cpp, "Future<void>::set", r"void\s+Future<void>::set\(\s*\)", env, {}, "Unit", "futSetStep", "", "Fut", "FutSetL", False)
+    parts.append("/-! ### Future<void>::set (src/Future.cpp) -/\n" + txt)
+    counts["Future<void>::set"] = n
+    # Future<A>: the conversion and the destructor are translated; the other members must be plain forwards to the embedded Future<void>
+    txt, n = compile_fn(fa, "Future<A>::operator const A&", r"operator\s+const\s+A\s*&\s*\(\s*\)\s*const", env, {}, "Option Int", "futAResultStep", "",
+                        "Fut", "FutAResultL", False)
+    parts.append("/-! ### Future<A>::operator const A& -/\n" + txt)
+    counts["Future<A>::operator const A&"] = n
+    txt, n = compile_fn(fa, "Future<A>::~Future", r"~Future\(\s*\)", env, {}, "Unit", "futADtorStep", "", "Fut", "FutADtorL", False)
+    parts.append("/-! ### Future<A>::~Future -/\n" + txt)
+    counts["Future<A>::~Future"] = n
+    for name, ret in (("abort", "void"), ("isAborting", "bool"), ("isFinished", "bool"), ("isAborted", "bool"), ("join", "void")):
+        cst = r"\s*const" if ret == "bool" else ""
+        body, _ = extract(fa, f"Future<A>::{name}", ret + r"\s+" + name + r"\(\s*\)" + cst)
+        want = ("return" if ret == "bool" else "") + f"future.{name}();"
+        if "".join(body.split()) != want:
+            raise Refuse(f"Future<A>::{name} is not the plain forward `{want}`")
+    # the two proc templates: order of body call / result store / set() / delete
+    acts = {}
+    for key, rx, var in (("void", r"template\s*<\s*class\s+A\s*>\s*void\s+Future<void>::proc\(\s*A\s*\*\s*a\s*\)", "a"),
+                         ("A", r"template\s*<\s*typename\s+A\s*>\s*template\s*<\s*class\s+B\s*>\s*void\s+Future<A>::proc\(\s*B\s*\*\s*b\s*\)", "b")):
+        body, _ = extract(hdr, f"Future<{key}>::proc", rx)
+        seq = []
+        for st in [x.strip() for x in body.split(";") if x.strip()]:
+            t = "".join(st.split())
+            if t == f"{var}->call()":
+                seq.append(".body")
+            elif t == f"((Future<A>*){var}->z)->result={var}->call()":
+                seq.append(".bodyIntoResult")
+            elif t in (f"((Future<void>*){var}->z)->set()", f"((Future<A>*){var}->z)->future.set()"):
+                seq.append(".set")
+            elif t == f"delete{var}":
+                seq.append(".deleteRecord")
+            else:
+                raise Refuse(f"Future<{key}>::proc: statement `{st}` is outside the understood forms")
+        acts[key] = seq
+    parts.append("/-! ### Future<void>::proc / Future<A>::proc: the order of their actions -/\n"
+                 "inductive ProcAct where\n  | body | bodyIntoResult | set | deleteRecord\n  deriving DecidableEq, Repr\n"
+                 f"def procVoid : List ProcAct := [{', '.join(acts['void'])}]\n"
+                 f"def procA : List ProcAct := [{', '.join(acts['A'])}]")
+    return parts, counts
+
+
 HEADER = """/- generated by tools/gen_future.py from src/Future.cpp - do not edit -/
 import Nstd.Future.Model
 
@@ -1045,17 +1185,19 @@ set_option linter.unusedVariables false
 namespace Nstd.Generated.FutureBody
 open Nstd.Future
 
-/-- modelled callees of the translated bodies: `Signal::set / reset / wait` of the FastSignal's `_signal` member -/
+/-- modelled callees of the translated bodies -/
 inductive Callee where
-  | sigSet | sigReset | sigWait
+  | sigSet | sigReset | sigWait      -- Signal::set / reset / wait of the object's Signal member
+  | futJoin                          -- Future<void>::join of the same / the embedded future
   deriving DecidableEq, Repr
 
 /-- outcome of one translated micro-step: continue at the shared access `pc`, return, call a modelled function and continue at `next`
-    (`none` = the call is the last action: the function returns when the callee does), or `stuck` (not a program counter of the body) -/
+    (`none` = the calls are the last action: the function returns when the last callee does; several calls in a row are one entry),
+    or `stuck` (not a program counter of the body) -/
 inductive GStep (L R : Type) where
   | goto (pc : Nat) (l : L)
   | ret (v : R) (l : L)
-  | call (f : Callee) (next : Option Nat) (l : L)
+  | call (fs : List Callee) (next : Option Nat) (l : L)
   | stuck
 """
 
@@ -1085,6 +1227,9 @@ def generate(repo, out):
     parts.append("/-! ### LockFreeQueue<T>::LockFreeQueue -/\n" + gen_queue_ctor(src))
     parts.append("/-! ### ThreadPool::ThreadPool -/\n" + gen_pool_ctor(src))
     parts.append("/-! ### ThreadPool::run: counters and conditions -/\n" + gen_run_decision(src))
+    hp, hc = gen_future_hpp(repo, src)
+    parts += hp
+    counts.update(hc)
     parts.append("end Nstd.Generated.FutureBody\n")
     text = "\n\n".join(parts)
     out = Path(out)
